@@ -146,6 +146,18 @@ def _bconst(a):
     return None
 
 
+def _complementary(lits):
+    """some literal and its negation both occur"""
+    pos, neg = set(), set()
+    for a in lits:
+        if is_z3(a):
+            if z3.is_not(a):
+                neg.add(a.arg(0).get_id())
+            else:
+                pos.add(a.get_id())
+    return bool(pos & neg)
+
+
 def b_and(*xs):
     out = []
     for a in xs:
@@ -154,11 +166,16 @@ def b_and(*xs):
             return False
         if c is True:
             continue
-        out.append(a)
+        if is_z3(a) and z3.is_and(a):
+            out.extend(a.children())
+        else:
+            out.append(a)
     if not out:
         return True
     if len(out) == 1:
         return out[0]
+    if _complementary(out):
+        return False
     return z3.And(*out)
 
 
@@ -170,11 +187,16 @@ def b_or(*xs):
             return True
         if c is False:
             continue
-        out.append(a)
+        if is_z3(a) and z3.is_or(a):
+            out.extend(a.children())
+        else:
+            out.append(a)
     if not out:
         return False
     if len(out) == 1:
         return out[0]
+    if _complementary(out):
+        return True
     return z3.Or(*out)
 
 
